@@ -473,6 +473,9 @@ def run(ctx):
     # (C13-R11) and the frozen convention tables (C10-R6)
     ctx.borrow("c13", {"R11": "R24"})
     ctx.borrow("c10", {"R6": "R25"})
+    # the atom number that heads a Molden [GTO] block decides which nucleus its shells belong to (C01-R19: writer part
+    # and reader routine evaluated on bases with atoms without functions / blocks out of order)
+    ctx.borrow("c01", {"R19": "R27"})
     ctx.rule("R22", "VASP header: scaling factor, element / count expansion, selective-dynamics line, Cartesian or direct coordinates (reader evaluated on model headers)", "the universal scaling factor dropped from the cell or from Cartesian positions, fractional coordinates multiplied from the wrong side, counts attached to other elements")
     check_vasp_header(ctx, "R22")
 
